@@ -34,15 +34,25 @@ theorem expand_total (inv : Inv) (h : inv.args ≠ []) :
   | none => simp [hi] at ht
   | some st => exact ⟨st, rfl⟩
 
-/-- Both call syntaxes of the local macro `name!` reach the call of the inner fn with the user's
-    expressions unchanged and in order, followed by `recCallTail`: `name!(e₁,…,eₙ,)` in one step,
-    `name!(e₁,…,eₙ)` in two (the first arm adds the trailing comma). -/
-theorem call_total {α : Type} (e : Expansion) (exprs : List α) (h : exprs ≠ []) :
-    callIter e 1 (.inv exprs true) = some (.done exprs e.recCallTail) ∧
-    callIter e 2 (.inv exprs false) = some (.done exprs e.recCallTail) := by
+/-- Both call syntaxes of the local macro `name!`, for ANY number of argument expressions: running the two arms
+    (as matchers, in source order) on the token stream of `name!(e₁,…,eₙ)` resp. `name!(e₁,…,eₙ,)` reaches the call of
+    the inner fn with the user's expressions unchanged and in order, followed by `recCallTail` — the same inner call
+    for both syntaxes. With a trailing comma arm 1 fails (it runs out of tokens inside `$(,$x:expr)*`) and arm 2 fires:
+    1 step; without, arm 1 re-invokes the macro with the comma added, then arm 2 fires: 2 steps. `runG` (hence
+    `generated_eq_explicit`) evaluates every recursive call through this `expandCall`. -/
+theorem call_total {α : Type} (e : Expansion) (exprs : List α) :
+    (∀ tc, expandCall e exprs tc = some (exprs, e.recCallTail)) ∧
+    (exprs ≠ [] →
+      callIter e 1 (.inv (callToks exprs true)) = some (.done exprs e.recCallTail) ∧
+      callStep e (.inv (callToks exprs false)) = some (.inv (callToks exprs true)) ∧
+      callIter e 2 (.inv (callToks exprs false)) = some (.done exprs e.recCallTail)) := by
+  refine ⟨fun tc => expandCall_eq e exprs tc, fun h => ?_⟩
   cases exprs with
   | nil => exact absurd rfl h
-  | cons x xs => exact ⟨rfl, rfl⟩
+  | cons x xs =>
+    rw [callToks_true]
+    refine ⟨by simp [callIter, callStep_terminated], callStep_callToks_false e x xs, ?_⟩
+    simp [callIter, callStep_callToks_false, callStep_terminated]
 
 /-- The inner fn's parameter list is the arguments followed by a capture tail; the tail appended to every
     recursive call and the tail passed by the closure are that *same* list in the same order (shared captures
@@ -152,8 +162,14 @@ example : expand { caps := [("x", true)], args := [], ret := none } = none := by
 example : expand { caps := [], args := [], ret := some "i64" } = none := by decide
 
 -- call_total: both syntaxes of `f!(p, q)`.
-example : callIter (specExpansion sampleInv) 2 (.inv ["p", "q"] false) =
-    some (.done ["p", "q"] [("w", .shared), ("y", .shared), ("z", .mutable), ("x", .mutable)]) := rfl
+example : expandCall (specExpansion sampleInv) ["p", "q", "r"] false =
+    some (["p", "q", "r"], [("w", .shared), ("y", .shared), ("z", .mutable), ("x", .mutable)]) := by decide
+example : expandCall (specExpansion sampleInv) ["p", "q", "r"] true =
+    some (["p", "q", "r"], [("w", .shared), ("y", .shared), ("z", .mutable), ("x", .mutable)]) := by decide
+-- the matcher does reject what is not a call: `f!(,)`, `f!(p q)`, `f!(p,,)`.
+example : callStep (α := String) (specExpansion sampleInv) (.inv [.comma]) = none := by decide
+example : callStep (specExpansion sampleInv) (.inv [.expr "p", .expr "q"]) = none := by decide
+example : callStep (specExpansion sampleInv) (.inv [.expr "p", .comma, .comma]) = none := by decide
 
 -- rebinds_self: in the frame of an activation `z` is the enclosing `z` (mutable), `y` the enclosing `y` (shared), `b` the
 -- second argument; and the names appended to a recursive call evaluate to the very references the closure passed.
@@ -174,9 +190,9 @@ def sampleBody : Body :=
   .write "x" (x * 3 + a + y) <|
   if a ≤ 0 then .ret (b + y)
   else if a % 2 = 0 then
-    .call [a - 1, b + 1] fun r => .read "z" fun z => .write "z" (z + r) (.ret (r + 1))
+    .call true [a - 1, b + 1] fun r => .read "z" fun z => .write "z" (z + r) (.ret (r + 1))
   else
-    .call [a - 1, b] fun r1 => .call [a - 2, b * 2] fun r2 =>
+    .call false [a - 1, b] fun r1 => .call true [a - 2, b * 2] fun r2 =>
     .read "z" fun z => .write "z" (z * 2 + r1 - r2) (.ret (r1 * 7 + r2))
 
 def sampleStore : Store := fun n => if n = "x" then 1 else if n = "y" then 10 else if n = "z" then 100 else if n = "w" then 1000 else 0
